@@ -84,7 +84,21 @@ _UNMARKED_STMTS = {"index = len(statements)", "statements.insert(index, feature)
                    "feaFile.statements = statements = statements[:minindex] + lookups + statements[minindex:]", "feaFile.statements = statements = others + statements"}
 
 
-def insert_one(name, defs, unmarked_only=False):
+_MIDDLE_ONLY = {"afterBlock.statements = block.statements[markerIndex:]", "statements.insert(index, afterBlock)", "block.statements = block.statements[:markerIndex]"}
+_NEVER_IN_MIDDLE = {"index = len(statements)", "index = statements.index(block)", "statements.remove(block)"}
+
+
+def _stmt_runs(k, unmarked_only, middle):
+    if unmarked_only:
+        return k in _UNMARKED_STMTS
+    if middle is True:
+        return k not in _NEVER_IN_MIDDLE
+    if middle is False:
+        return k not in _MIDDLE_ONLY
+    return True
+
+
+def insert_one(name, defs, unmarked_only=False, middle=None):
     """features == [f]: the whole result.  `defs`: which of classDefs / anchorDefs / markClassDefs are symbolic (the others are None)"""
     D = [d for d in ("classDefs", "anchorDefs", "markClassDefs") if d in defs]
     # length of the definitions prefix: each non-empty list is followed by one fresh `Comment("")`
@@ -106,12 +120,19 @@ def insert_one(name, defs, unmarked_only=False):
         "middle": f"implies({mid}, {F} == {PRE}{S0}[:{p} + 1] + {LK} + [{f}, {A}] + {S0}[{p} + 1:])",
     }
     ens = {
-        "whole-list": " and ".join(f"({v})" for v in cases.values()),
+        **{"whole-list-" + k: v for k, v in cases.items()},
         # the marker comment is consumed; everything else in the block stays, in order; a middle marker splits the block
-        "marked-block": f"implies({MARKED} and ({CB} or {CA}), {b}.statements == {b}.statements0[:{m}] + {b}.statements0[{m} + 1:])"
-        f" and implies({mid}, {b}.statements == {b}.statements0[:{m}])",
+        "marked-block": f"implies({MARKED} and ({CB} or {CA}), {b}.statements == {b}.statements0[:{m}] + {b}.statements0[{m} + 1:])",
+        "first-half": f"implies({mid}, {b}.statements == {b}.statements0[:{m}])",
         "second-half": f"implies({mid}, fresh({A}) and {A}.kind == 'FeatureBlock' and {A}.name == {b}.name and {A}.statements == {b}.statements0[{m} + 1:])",
     }
+    if middle is True:  # the split case on its own: its clauses without the (quantified) case antecedent
+        ens = {"whole-list-middle": f"{F} == {PRE}{S0}[:{p} + 1] + {LK} + [{f}, {A}] + {S0}[{p} + 1:]",
+               "first-half": f"{b}.statements == {b}.statements0[:{m}]",
+               "second-half": f"fresh({A}) and {A}.kind == 'FeatureBlock' and {A}.name == {b}.name and {A}.statements == {b}.statements0[{m} + 1:]"}
+    elif middle is False:
+        for k_ in ("whole-list-middle", "first-half", "second-half"):
+            ens.pop(k_)
     for k, d in enumerate(D):
         # generated definitions first, in the order class / anchor / mark-class, each non-empty list followed by a fresh empty comment
         off = " + ".join(f"(len({e}) + 1 if {e} is not None and len({e}) > 0 else 0)" for e in D[:k]) or "0"
@@ -129,7 +150,7 @@ def insert_one(name, defs, unmarked_only=False):
         # setContext's postcondition `markers` for this feature: (top-level block, marker comment inside it)
         f"implies({MARKED}, {b} in feaFile.statements and {c} in {b}.statements and {c}.kind == 'Comment')",
         "allocated(features[0])",
-    ] + ([f"{IC} is None"] if unmarked_only else []) + [
+    ] + ([f"{IC} is None"] if unmarked_only else []) + ([mid] if middle is True else [f"not ({mid})"] if middle is False else []) + [
         # heap well-formedness: what the context refers to existed before the call
         f"implies({MARKED}, allocated({b}) and allocated({c}))",
     ]
@@ -145,19 +166,17 @@ def insert_one(name, defs, unmarked_only=False):
         ensures=ens,
         canaries={"unchanged": f"{F} == {S0}"},
         hints={k: v + ([f"len(others) == {nD}"] if D and k == "feaFile.statements = statements = others + statements" else [])
-               for k, v in HINTS.items() if not unmarked_only or k in _UNMARKED_STMTS},
+               for k, v in HINTS.items() if _stmt_runs(k, unmarked_only, middle)},
         ghost_vars={"gP": (NODES, "[]"), "gS": (NODES, "[]"), "gL": (NODES, "[]"), "g_mid": (BOOL, "False"), "gA": (Ref(NODE), "features[0]")},
-        ghost={k: v for k, v in GHOST.items() if not unmarked_only or k in _UNMARKED_STMTS},
+        ghost={k: v for k, v in GHOST.items() if _stmt_runs(k, unmarked_only, middle)},
         merge_branches=False,
     )
 
 
-insert_one("one", ())
-# generated definitions: one list symbolic at a time (the kern writer passes classDefs, the mark writer markClassDefs, nobody anchorDefs), in the
-# case without insert markers (the marker logic is the variant above; the two parts of the function share nothing but `statements`)
-insert_one("one-classdefs", ("classDefs",), unmarked_only=True)
-insert_one("one-markclassdefs", ("markClassDefs",), unmarked_only=True)
-
+# one generated feature; the split case (marker between hand-written rules) is a variant of its own so that no obligation has to refute the
+# quantified conditions of the other cases inside the (solver-wise heaviest) split path
+insert_one("one", (), middle=False)
+insert_one("one-split", (), middle=True)
 
 # ---- run-time side: the hook's finite domain of user files, restricted to calls with exactly one generated feature ------------------
 
@@ -210,5 +229,113 @@ def _one_call(fn, a):
 
 
 CONTRACTS[BFW + "._insert#one"].runtime = Runtime(_one_cases(False), _one_build(None), call=_one_call)
-CONTRACTS[BFW + "._insert#one-classdefs"].runtime = Runtime(_one_cases(True), _one_build("classDefs"), call=_one_call)
-CONTRACTS[BFW + "._insert#one-markclassdefs"].runtime = Runtime(_one_cases(True), _one_build("markClassDefs"), call=_one_call)
+
+
+def _split_cases(rng, n):
+    """marker between two hand-written rules (comments may stand around it)"""
+    blocks = [["R", "M", "R"], ["R", "C", "M", "R"], ["R", "M", "C", "R"], ["C", "R", "M", "R", "C"], ["R", "R", "M", "R"], ["R", "M", "R", "M"]]
+    out = [{"top": ([["S"]] if pre else []) + [["kern", ks]] + ([["S"]] if post else []), "features": ["kern"], "lookups": lk, "classdefs": 0}
+           for ks in blocks for pre in (False, True) for post in (False, True) for lk in (0, 2)]
+    rng.shuffle(out)
+    return out[:max(n, 24)]
+
+
+CONTRACTS[BFW + "._insert#one-split"].runtime = Runtime(_split_cases, _one_build(None), call=_one_call)
+
+
+# =====================================================================================================================
+# ANY number of generated features, no insert marker in play: self.context.insertComments is None (append mode, or a writer without marker
+# pattern) or EMPTY (skip mode, no marker found for any feature of the writer -- the common case): everything the user wrote stays where it
+# is, untouched; lookups, then the generated features in order, go after it.
+
+_NS0 = f"len({S0})"
+
+
+def unmarked_any(name, d):
+    """d: the one symbolic definitions parameter (or None)"""
+    nD = f"(len({d}) + 1 if {d} is not None and len({d}) > 0 else 0)" if d else "0"
+    off = f"{nD} + " if d else ""
+    ens = {
+        # F == [definitions, separator] + S0 + lookups + features, stated position-wise
+        "length": f"len({F}) == {off}{_NS0} + {NL} + len(features)",
+        "users-statements-untouched-in-place": f"all({F}[{off}q] == {S0}[q] for q in range({_NS0}))",
+        "then-the-lookups": f"all({F}[{off}{_NS0} + q] == {LK}[q] for q in range({NL}))",
+        "then-the-features-in-order": f"all({F}[{off}{_NS0} + {NL} + q] == features[q] for q in range(len(features)))",
+    }
+    if d:
+        ens["definitions-on-top"] = (f"implies({d} is not None and len({d}) > 0, all({F}[q] == {d}[q] for q in range(len({d})))"
+                                     f" and {F}[len({d})].kind == 'Comment' and {F}[len({d})].text == '' and fresh({F}[len({d})]))")
+    params = {"self": Ref("c17_Writer"), "feaFile": Ref(FEAFILE), "lookups": Opt(NODES), "features": NODES}
+    for x in ("classDefs", "anchorDefs", "markClassDefs"):
+        params[x] = Opt(NODES) if x == d else Const(None)
+    return contract(
+        BFW + "._insert",
+        name=name,
+        props=["C17"],
+        params=params,
+        globals=_GLOBALS,
+        requires=[f"{IC} is None or len({IC}) == 0", "len(features) > 0"],
+        modifies=[f"{FEAFILE}.statements"],
+        locals={"inserted": Dict(INT, BOOL), "others": NODES, "indices": List(INT), "statements": NODES},
+        ensures=ens,
+        canaries={"unchanged": f"{F} == {S0}"},
+        loops={
+            "for (ix, feature) in enumerate(features)": Loop(index="i", invariants={
+                "untouched": f"statements == {S0}", "no-indices": "len(indices) == 0", "none-inserted": "len(inserted) == 0"}),
+            "for feature in features": Loop(index="j", seq="FS", invariants={
+                "len": f"len(statements) == {_NS0} + j",
+                "prefix": f"all(statements[q] == {S0}[q] for q in range({_NS0}))",
+                "appended": f"all(statements[{_NS0} + q] == FS[q] for q in range(j))",
+                "indices-len": "len(indices) == j",
+                "indices": f"all(indices[q] == {_NS0} + q for q in range(j))",
+                "none-inserted": "len(inserted) == 0",
+            }),
+        },
+        hints={"minindex = min(indices)": [f"minindex == {_NS0}"]},
+        merge_branches=False,
+    )
+
+
+unmarked_any("unmarked-any", None)
+unmarked_any("unmarked-any-classdefs", "classDefs")
+unmarked_any("unmarked-any-markclassdefs", "markClassDefs")
+
+
+def _any_cases(rng, n):
+    from vcheck.hooks import c17 as H
+
+    pool = list(H.insert_domain("quick"))
+    rng.shuffle(pool)
+    extra = [{"top": [["S"], ["kern", ["R"]], ["S"]], "features": fs, "lookups": lk, "classdefs": cd} for fs in (["kern"], ["kern", "dist"], ["dist", "mark", "mkmk"]) for lk in (0, 2) for cd in (0, 1, 2)]
+    return [dict(c, no_marker=True) for c in (extra + pool)[:max(n, 30)]]
+
+
+def _any_build(defs_param):
+    def build(case):
+        from vcheck.hooks import c17 as H
+
+        w, fea, gen = H.build_insert_case(case)
+        if case.get("lookups") or not any(el[0] != "S" and "M" in el[1] for el in case["top"]):
+            pass  # keep the marker pattern: insertComments == {} (no marker in the file) or the case is skipped by `requires`
+        else:
+            w.insertFeatureMarker = None
+        w.setContext(None, fea)
+        if w.context.insertComments:
+            w.insertFeatureMarker = None
+            w.setContext(None, fea)
+        M.snapshot(fea, extra=gen["features"] + gen["lookups"] + gen["classDefs"])
+        args = {"self": w, "feaFile": fea, "lookups": gen["lookups"] or None, "features": gen["features"], "classDefs": None, "anchorDefs": None, "markClassDefs": None}
+        if defs_param:
+            args[defs_param] = gen["classDefs"] or None
+        return args
+
+    return build
+
+
+def _any_call(fn, a):
+    return fn(a["self"], a["feaFile"], classDefs=a["classDefs"], anchorDefs=a["anchorDefs"], markClassDefs=a["markClassDefs"], lookups=a["lookups"], features=a["features"])
+
+
+CONTRACTS[BFW + "._insert#unmarked-any"].runtime = Runtime(_any_cases, _any_build(None), call=_any_call)
+CONTRACTS[BFW + "._insert#unmarked-any-classdefs"].runtime = Runtime(_any_cases, _any_build("classDefs"), call=_any_call)
+CONTRACTS[BFW + "._insert#unmarked-any-markclassdefs"].runtime = Runtime(_any_cases, _any_build("markClassDefs"), call=_any_call)
